@@ -5,7 +5,7 @@ import bisect, glob, hashlib, json, logging, math, os, shutil, struct, warnings
 CLAIM = {
  'text': ('Lean 4 theorems decide the frame-selection arithmetic of the three converters for every n, start, stop, step>=1 '
           'and sample size (rp66_rows_eq_python, rp66_well_section_describes_rows, conv_rows_mem_iff, '
-          'conv_rows_subset_python, conv_rows_correct_iff, conv_rows_sample): RP66V1 writes exactly the rows Python slicing '
+          'conv_rows_subset_python, conv_rows_correct_iff, conv_rows_drops_exactly_last, conv_rows_sample): RP66V1 writes exactly the rows Python slicing '
           'selects; LIS/BIT write xs[first:last+1:step], which is exactly that selection iff it is empty or '
           'stop mod step <= start mod step, and otherwise lacks only the last selected frame. The end-to-end pipeline '
           '(file -> reader -> selection -> LAS text -> LASRead) is exercised: real single_*_to_las on the example files, '
@@ -15,13 +15,13 @@ CLAIM = {
  'note': ('Trusted: Lean kernel; model<->code correspondence of the row index lists on the cases of the run; the repository '
           'readers (subjects of C04/C06/C13) as the source of truth for frame values; LASRead (C09) as the output parser; '
           'LIS Units.convert (C17) for FEET <-> .1IN. Known findings F11 (LIS/BIT last frame, LIS well section, BIT STRP), '
-          'F19, F7 and four C11-specific classes are tagged by strict class predicates.'),
+          'F19, F7 and the C11-specific classes of known_findings.d/C11.json are tagged by strict class predicates.'),
  'technique': 'Lean 4 proof (omega, induction on lists) + model-implementation correspondence + end-to-end oracle',
  'design_ref': 'DESIGN.md section 6 C11',
 }
 
 RULE = ('sources: every example file of the three formats, truncations of them at record boundaries taken from the '
-        'repository index, generated BIT files (own encoder); per source random (selector, channel subset, reduction, width, '
+        'repository index, LIS files with several log passes spliced from the examples, generated BIT files (own encoder); per source random (selector, channel subset, reduction, width, '
         'decimal format) with steps 1/2/3/large, negative / out-of-range / None bounds, sample sizes below/equal/above n, '
         'plus an exhaustive slice scope on a tiny generated BIT file. A case is non-trivial when at least 2 and fewer than '
         'n rows are selected or a non-empty channel subset is given; distinct by (family, source, pass length, selected rows, '
@@ -938,8 +938,11 @@ def run_cases(ctx, env, cases, truths, record=True, jobs=None):
         verdicts.append(v)
         ctx.count('oracle_cases'); ctx.count('cases_' + case['fam'])
         if record:
+            if not v.fails:
+                ctx.count('cases_without_any_failure')
             for detail, finding in v.fails:
                 ctx.fail(case, detail, finding)
+                ctx.count('tagged_' + finding if finding else 'untagged')
             for k in v.nontriv:
                 ctx.nontriv(k)
         for pi, obs, widx in seen:
